@@ -12,19 +12,6 @@ the packet alone, the cipher always starts at position 0.
 namespace Nx.L1
 open Nx Nx.Prudp Nx.Chan Nx.Crypto
 
-theorem rc4At_involutive (key : Bytes) (pos : Nat) (d : Bytes) : rc4At key pos (rc4At key pos d) = d := by
-  rw [rc4At_eq_xorAt, rc4At_eq_xorAt]; exact xorAt_involutive _ d pos
-
-theorem rc4At_isEmpty (key : Bytes) (pos : Nat) (d : Bytes) : (rc4At key pos d).isEmpty = d.isEmpty := by
-  have := rc4At_length key pos d
-  cases h : rc4At key pos d with
-  | nil => rw [h] at this; cases d with
-    | nil => rfl
-    | cons _ _ => simp at this
-  | cons x xs => rw [h] at this; cases d with
-    | nil => simp at this
-    | cons _ _ => rfl
-
 /-- **unreliable data, end to end**: every packet `send_unreliable(data)` emits decodes, at any endpoint with the same
     unreliable base key and cipher setting, to exactly `data` — and decoding it does not disturb that endpoint -/
 theorem unreliable_end_to_end (env : Env) (hl : EnvLaws env)
